@@ -1,7 +1,7 @@
 """C02 — readers decode every spec-conformant file (E2, BV mode; decoder kernels against specification formulas)"""
 import z3
 from fw import Harness
-from llsym import Finding, Sym
+from llsym import Finding, Sym, PathEnd
 from irparse import IntTy
 from pbfenc import *
 i8, i32, i64 = IntTy(8), IntTy(32), IntTy(64)
@@ -217,6 +217,69 @@ def h_o5m_deltas(I, job):
     I.reach('end')
 
 
+def h_xml_discussion(I, job):
+    """schema-conformant changeset content as an element event script; the delivered discussion and tags against a reference reading of the script"""
+    import C03
+    n = job['n']
+    ch = [I.named('ch%d' % k, 8) for k in range(3)]
+    for c in ch: I.assume(I.term(c, 8) != 0)
+    cb = I.new_obj(3, 'chars', 'heap')
+    for k, c in enumerate(ch): I.store(cb + k, i8, c)
+    em = I.new_obj(n, 'events', 'heap')
+    # reference reading of the script (concrete structure, symbolic character bytes); non-conformant scripts are outside this harness
+    stack = []; comments = []; ntags = 0; seen_disc = False; tags_done = False
+    for k in range(n):
+        e = I.named('ev%d' % k, 8); I.assume(z3.And(z3.UGE(I.term(e, 8), 1), z3.ULE(I.term(e, 8), 7)))
+        ev = I.concretize(e, 'event'); I.store(em + k, i8, ev)
+        top = stack[-1] if stack else 'changeset'
+        if ev == 6:
+            if not stack: raise PathEnd()
+            stack.pop()
+        elif ev == 1 and top == 'changeset' and not seen_disc: stack.append('discussion'); seen_disc = True; tags_done = ntags > 0
+        elif ev == 2 and top == 'discussion': stack.append('comment'); comments.append(None)
+        elif ev == 3 and top == 'comment' and comments[-1] is None: stack.append('text'); comments[-1] = []
+        elif ev in (4, 7) and top == 'text': comments[-1] += ([ch[0], ch[1]] if ev == 4 else [ch[2]])
+        elif ev == 5 and top == 'changeset' and not tags_done: stack.append('tag'); ntags += 1     # the tags form one contiguous run (before or after the discussion), as every producer writes them
+        else: raise PathEnd()
+    # elements still open at the end of the script are closed by the wrapper in order
+    I.call('@verif_xml_chars', [cb])
+    out = I.new_obj(2048, 'out', 'heap'); ol = I.new_obj(4, 'ol', 'heap')
+    rc = I.concretize(I.call('@verif_xml_events', [em, n, out, 2048, ol]), 'rc'); I.observe('rc', rc)
+    I.call('@verif_xml_chars', [0])
+    if rc != 0: raise Finding('rejects-valid', 'schema-conformant changeset content rejected (rc=%d)' % rc)
+    total = I.concretize(I.load(ol, i32), 'n')
+    pos = [0]
+    def word():
+        v = I.load(out + pos[0], i64); pos[0] += 8; return v
+    def cword(what):
+        return I.concretize(word(), what)
+    def string(expect, what):
+        ln = cword(what + ' length')
+        if ln != len(expect): raise Finding('string-length', '%s has %d bytes, the script describes %d' % (what, ln, len(expect)))
+        for j, x in enumerate(expect):
+            I.obligation(I.term(I.load(out + pos[0] + j, i8), 8) == (I.term(x, 8) if isinstance(x, Sym) else x), 'string-content', '%s: byte %d differs from the script' % (what, j))
+        pos[0] += ln
+    if total == 0: raise Finding('object-count', 'no changeset delivered')
+    t_, i_ = cword('type'), cword('id')
+    if t_ != 5 or i_ != 7: raise Finding('object', 'delivered object is not changeset 7 (type %d id %d, %d dump bytes)' % (t_, i_, total))
+    cword('created'); cword('closed')
+    if cword('uid') != 3: raise Finding('uid', 'changeset uid')
+    string(list(b'u'), 'user')
+    cword('num_changes'); cword('num_comments'); word(); word()
+    nt = cword('number of tags')
+    if nt != ntags: raise Finding('tag-count', '%d tags delivered, the script has %d' % (nt, ntags))
+    for _ in range(ntags): string(list(b'key'), 'tag key'); string(list(b'value'), 'tag value')
+    nc = cword('number of comments')
+    if nc != len(comments): raise Finding('comment-count', '%d comments delivered, the script has %d' % (nc, len(comments)))
+    for k, c in enumerate(comments):
+        cword('date')
+        if cword('comment uid') != 5: raise Finding('comment-uid', 'comment %d uid' % k)
+        string(list(b'commenter'), 'comment %d user' % k)
+        string(c or [], 'comment %d text' % k)
+    if pos[0] != total: raise Finding('object-count', 'more than one changeset delivered (%d of %d dump bytes used)' % (pos[0], total))
+    I.reach('end')
+
+
 def gen28(names):
     def g(rnd):
         return [{n: rnd.choice([0, 1, 2, 3, (1 << 28) - 1, rnd.getrandbits(28), rnd.getrandbits(10)]) for n in names} for _ in range(12)]
@@ -246,5 +309,9 @@ def harnesses(tier):
         Harness('o5m_delta_chains', 'chunk', h_o5m_deltas, jobs=[dict(reset=0), dict(reset=1)], setup=__import__('C06').setup_env,
                 desc='O5mParser on a file of three nodes with symbolic zig-zag deltas for id, longitude, latitude, timestamp and changeset, author information with inline user string, with and without a reset marker before the third node: every value is the running sum of its deltas and restarts at 0 after a reset',
                 bounds='3 nodes, one-byte (7-bit) zig-zag deltas', testgen=lambda rnd: [dict(_job=rnd.randint(0, 1), **{nm: rnd.randint(1, 127) for nm in ('id1', 'id2', 'id3', 'lon1', 'lon2', 'lon3', 'lat1', 'lat2', 'lat3', 'ts1', 'cs1')}) for _ in range(6)]),
+        Harness('xml_discussion_content', 'xml', h_xml_discussion, jobs=[dict(n=k) for k in ((3, 5, 7) if tier == 'quick' else (2, 3, 4, 5, 6, 7, 8, 9))], setup=__import__('C03').setup_xml,
+                tests=[dict(_job=0, ev0=1, ev1=2, ev2=6, ev3=6, ch0=65, ch1=66, ch2=67)],
+                desc='XMLParser element callbacks on every schema-conformant event script inside <changeset> (one <discussion> with <comment>s, at most one <text> each, character data delivered in one or several pieces with symbolic bytes, <tag>s): the delivered changeset has exactly the script\'s tags and comments, each comment text being the concatenation of its character-data pieces',
+                bounds='event scripts of the listed lengths (<= %d) over 7 event kinds, 3 symbolic character bytes; expat itself (tokenising, entity decoding, attribute order) is not encoded' % (7 if tier == 'quick' else 9)),
     ]
     return hs
